@@ -1127,9 +1127,9 @@ func (s *UpdateDecoder[T]) Decode(t T, b []byte) error {
 	// is too large (i.e., if Withdrawn Routes Length + Total Attribute
 	// Length + 23 exceeds the message Length), then the Error Subcode MUST
 	// be set to Malformed Attribute List.
-	wrl := binary.BigEndian.Uint16(b[:2])
+	wrl := int(binary.BigEndian.Uint16(b[:2]))
 	b = b[2:]
-	if len(b) < int(wrl)+2 {
+	if len(b) < wrl+2 {
 		return &Notification{
 			Code:    NOTIF_CODE_UPDATE_MESSAGE_ERR,
 			Subcode: NOTIF_SUBCODE_MALFORMED_ATTR_LIST,
